@@ -9,6 +9,7 @@ import (
 	"go/types"
 	"sort"
 	"strings"
+	"time"
 
 	"golang.org/x/tools/go/ssa"
 )
@@ -30,6 +31,7 @@ type Oblig struct {
 	Model   string
 	SMTFile string
 	Vars    []string // terms to evaluate in a model
+	Budget  time.Duration // per-obligation time budget override (0 = default)
 }
 
 type Loop struct {
@@ -82,6 +84,7 @@ type FnCtx struct {
 	sentinels     map[*ssa.Global]string
 	usedSums      map[string]bool
 	knownArrays   map[string]bool
+	boxed         map[string]Val // composite values boxed into interfaces, by interface term
 }
 
 func newFnCtx(eng *Engine, fn *ssa.Function, fc *FuncContract, key string) *FnCtx {
